@@ -22,8 +22,16 @@ theorem escName_head2 (d : Char) : ∃ h t, escName d = h :: t ∧ h ≠ '+' ∧
       (intro h; subst h; simp at hu)
   · exact ⟨'\\', [d], by simp only [escName, hp, hn, hr, hf, hu]; simp, by decide, by decide⟩
 
-/-- the code point after a run of name text: never a raw `+` or `>` when white space or nothing follows -/
-theorem name_then_ws_head (rest r : Str) (hr : WsOrEnd r) :
+/-- the code point that follows is neither `+` nor `>` (or nothing follows) -/
+def SafeNext (r : Str) : Prop := ∀ c r', r = c :: r' → c ≠ '+' ∧ c ≠ '>'
+
+theorem wsOrEnd_safe (r : Str) (hr : WsOrEnd r) : SafeNext r := by
+  intro c r' h; subst h
+  simp [WsOrEnd, isWs] at hr
+  rcases hr with (rfl | rfl) | rfl <;> exact ⟨by decide, by decide⟩
+
+/-- the code point after a run of name text is never a raw `+` or `>` -/
+theorem name_then_ws_head (rest r : Str) (hr : SafeNext r) :
     serializeName rest ++ r = [] ∨ ∃ h t, serializeName rest ++ r = h :: t ∧ h ≠ '+' ∧ h ≠ '>' := by
   cases rest with
   | nil =>
@@ -31,8 +39,7 @@ theorem name_then_ws_head (rest r : Str) (hr : WsOrEnd r) :
     | nil => left; simp [serializeName]
     | cons c r' =>
       right
-      refine ⟨c, r', by simp [serializeName], ?_, ?_⟩ <;>
-        (intro h; subst h; simp [WsOrEnd, isWs] at hr)
+      exact ⟨c, r', by simp [serializeName], (hr c r' rfl).1, (hr c r' rfl).2⟩
   | cons d rest' =>
     right
     obtain ⟨h, t, he, h1, h2⟩ := escName_head2 d
@@ -53,7 +60,7 @@ theorem serializeIdentifier_dash (b : Char) (bs : Str) (hb : b ≠ '-') :
   unfold serializeIdentifier; split <;> simp_all <;> (exfalso; grind)
 
 /-- in a white-space separated list an identifier can be mistaken neither for a unicode-range … -/
-theorem ident_no_urange (s t r : Str) (hs : serializeIdentifier s = some t) (hr : WsOrEnd r) :
+theorem ident_no_urange (s t r : Str) (hs : serializeIdentifier s = some t) (hr : SafeNext r) :
     startsURange (t ++ r) = false := by
   cases s with
   | nil => simp [serializeIdentifier] at hs
@@ -86,7 +93,7 @@ theorem take3_third (a b c : Char) (tl : Str) (hc : c ≠ '>') : ((a :: b :: c :
 theorem take3_short2 (a b : Char) : (([a, b] : Str).take 3 == ['-', '-', '>']) = false := by simp
 
 /-- … nor for CDC -/
-theorem ident_no_cdc (s t r : Str) (hs : serializeIdentifier s = some t) (hr : WsOrEnd r) :
+theorem ident_no_cdc (s t r : Str) (hs : serializeIdentifier s = some t) (hr : SafeNext r) :
     ((t ++ r).take 3 == ['-', '-', '>']) = false := by
   cases s with
   | nil => simp [serializeIdentifier] at hs
@@ -168,7 +175,7 @@ theorem simple_step (total : Nat) (t : Tok) (txt r : Str) (h : Simple t txt) (hr
   cases h with
   | ident p s t hs =>
     obtain ⟨h1, h2⟩ := wsOrEnd_stops r hr
-    exact ⟨_, ident_step total s txt r hs h1 h2 (ident_no_urange s txt r hs hr) (ident_no_cdc s txt r hs hr)⟩
+    exact ⟨_, ident_step total s txt r hs h1 h2 (ident_no_urange s txt r hs (wsOrEnd_safe r hr)) (ident_no_cdc s txt r hs (wsOrEnd_safe r hr))⟩
   | str p s =>
     refine ⟨total - ('"' :: serializeString s ++ '"' :: r).length, ?_⟩
     have := string_step total s r
